@@ -809,3 +809,37 @@ def double_releases(prog, fns):
                 for m in again(cf, cn_):
                     hits.append((fn, n, cf, m))
     return n_exam, hits
+
+
+XFER_CALLS = ("read", "write", "pread", "pread64", "pwrite", "pwrite64")
+
+
+def partial_transfer_retries(fns):
+    """loops that go on after a partial read()/write(): `r = write(fd, p, n)` in a loop in which the buffer
+    pointer p is advanced by r.  After the pointer moved the same n would run past the buffer: the count handed
+    to the call has to be made of something the loop takes r off as well.  [(fn, store node, pointer, count, ok)]"""
+    out = []
+    for fn in fns:
+        for xn in fn.events("S"):
+            rhs = T.strip(xn.ev.get("rhs") or {})
+            l = T.strip(xn.ev["lhs"])
+            if not (isinstance(rhs, dict) and rhs.get("k") == "c" and rhs.get("fn") in XFER_CALLS and
+                    isinstance(l, dict) and l.get("k") == "v" and len(rhs.get("a", [])) >= 3):
+                continue
+            hb = loop_head(fn, xn)
+            if hb is None:
+                continue
+            body = natural_loops(fn)[hb]
+            r = l["n"]
+            pv = T.path(rhs["a"][1])
+            if pv is None:
+                continue
+            stepped = {T.path(n.ev["lhs"]) for n in fn.events("S") if n in body and n.ev.get("o") in ("+=", "-=")
+                       and r in T.vars_in(n.ev.get("rhs") or {})}
+            if pv not in stepped:
+                continue
+            cnt = rhs["a"][2]
+            ok = bool(T.vars_in(cnt) & (stepped - {pv})) or \
+                depends_on(fn, cnt, lambda y: T.path(y) in (stepped - {pv}), depth=1)
+            out.append((fn, xn, pv, cnt, ok))
+    return out
